@@ -84,7 +84,7 @@ Definition settled (st : state) : bool :=
 
 (* budget: the lag-tolerant pass gives up growing a state set beyond this size (the history was already
    rejected by the quiet pass; a set this large means the verdict stays "not accepted") *)
-Definition budget : nat := 1500.
+Definition budget : nat := 600.
 
 Fixpoint closure (fuel : nat) (frontier acc : list state) (ks : list hkey) : list state :=
   match fuel with
@@ -142,19 +142,22 @@ Definition obs_step (quiet : bool) (sts : list state) (o : obs) : list state :=
            end in
   if quiet then filter settled r else r.
 
-(* index of the first observation that no state of the set accepts *)
-Fixpoint run_obs_q (quiet : bool) (sts : list state) (os : list obs) (n : nat) : option nat :=
+(* index of the first observation that no state of the set accepts; the first `nq` observations are
+   processed quietly, the rest tolerating lag *)
+Fixpoint run_obs_q (nq : nat) (sts : list state) (os : list obs) (n : nat) : option nat :=
   match os with
   | [] => None
-  | o :: r => match obs_step quiet sts o with
+  | o :: r => match obs_step (0 <? nq)%nat sts o with
               | [] => Some n
-              | sts' => run_obs_q quiet sts' r (S n)
+              | sts' => run_obs_q (pred nq) sts' r (S n)
               end
   end.
+(* quiet pass; if it rejects at observation k, a second pass tolerates lag from observation k - 4 on
+   (a lag can only stem from the last few operations) and only that verdict counts *)
 Definition run_obs (sts : list state) (os : list obs) (n : nat) : option nat :=
-  match run_obs_q true sts os n with
+  match run_obs_q (S (length os)) sts os n with
   | None => None
-  | Some _ => run_obs_q false sts os n
+  | Some k => run_obs_q (k - n - 4) sts os n
   end.
 
 (* ---- Read/Write traces ---- *)
